@@ -29,7 +29,9 @@ from harness.props.c09 import eligible_first, expected_phases
 
 RULE = ("one `whatshap phase` CLI run over a generated multi-sample, multi-chromosome VCF with random INFO/FORMAT fields "
         "(Integer/Float/String/Flag, Number 1/A/R/G/.), ID/QUAL/FILTER values, missing/partial genotypes, records without "
-        "GT / without ALT, multi-ALT, symbolic ALT, duplicate positions, pre-existing PS/HP phase, optional missing contig "
+        "GT / without ALT, multi-ALT, symbolic ALT, duplicate positions (every skipped kind — indel, MNP, multi-ALT, >=16 ALT, no ALT, "
+        "symbolic, other SNV — in front of and behind a phasable record of the same position, heterozygous calls in every textual form), "
+        "pre-existing PS/HP phase, optional missing contig "
         "lines and mis-declared predefined FORMATs; random --sample/--chromosome selection, both tags, optional --only-snvs, "
         "--distrust-genotypes, chromosome names coming back later in the file, >=16-ALT records, undeclared predefined INFOs, refused "
         "inputs, output to file/stdout/.gz/over an existing file; plus in-process cases without BAM: `write` call sequences on "
@@ -231,6 +233,18 @@ def run_case(ctx, case, n):
     elig = eligible_first(rin, o["only_snvs"])
     tag = o["tag"]
 
+    # which skipped kinds stand next to "the variant" of their position, on which side, and whether that variant got phased
+    first_elig = {(rin[i]["chrom"], rin[i]["pos"]): i for i in sorted(elig, reverse=True)}
+    for i, r in enumerate(rin):
+        j = first_elig.get((r["chrom"], r["pos"]))
+        if j is None or i == j or r["chrom"] not in processed:
+            continue
+        n_alt = len(r["alts"])
+        kind = ("noALT" if n_alt == 0 else "manyALT" if n_alt >= 16 else "multiALT" if n_alt > 1 else "symbolic" if r["alts"][0].startswith("<")
+                else "snv" if len(r["ref"]) == 1 and len(r["alts"][0]) == 1 else "del" if len(r["alts"][0]) == 1 else
+                "ins" if len(r["ref"]) == 1 else "mnp/complex")
+        got = any((r["chrom"], r["pos"]) in exp.get(s, {}) for s in targets)
+        ctx.dist(f"colocated {'in front' if i < j else 'behind'}{' --only-snvs' if o['only_snvs'] else ''} {tag}", kind + ("" if got else " (variant unphased)"))
     # ------------------------------------------------------------- text-level oracle
     if osamples != samples:
         fail(f"sample columns changed: {samples} -> {osamples}", "samples")
@@ -285,7 +299,9 @@ def run_case(ctx, case, n):
                     why = "the position was not phased for this sample in this run"
                 if why:
                     fail(f"{where} sample {s}: call {ocols[si]!r} (FORMAT {ofmt}) carries a phase mark although {why}; input call was {bcols[si]!r}",
-                         "stale-mark" if (("|" in b.get("GT", "")) or not is_missing(b.get("HP"))) else "phase-mark")
+                         # stale = the input's own mark left standing; a mark with another value was written by this run
+                         "stale-mark" if ((("|" in b.get("GT", "")) or not is_missing(b.get("HP")))
+                                          and all(oo.get(k, ".") == b.get(k, ".") for k in ("GT", "PS", "HP"))) else "phase-mark")
     # trusted mode: super-read genotype = input genotype (hypothesis of alleles_preserved)
     if not o["distrust"]:
         for t in trace:
@@ -482,7 +498,7 @@ def run(ctx):
         run_stream_case(ctx, F.gen_stream_case(ctx.rng), n); n += 1
     for _ in range((150 if ctx.quick else 1500) * ctx.scale):
         run_reader_case(ctx, F.gen_reader_case(ctx.rng), n); n += 1
-    for _ in range((30 if ctx.quick else 300) * ctx.scale):
+    for _ in range((40 if ctx.quick else 300) * ctx.scale):
         run_case(ctx, gen_case(ctx.rng, scale=1 if ctx.quick else 2), n); n += 1
     try:
         os.rmdir(ctx.workdir())
